@@ -113,6 +113,79 @@ type c19sEnv struct {
 	// incomplete: an event the real code must send did not arrive within the (generous) deadline; the rest
 	// of the case is not executed and nothing further is observed (no observation can be trusted then)
 	incomplete bool
+	maxconn    int
+	deadPort   int // a localhost port nobody listens on: outgoing handshakes to it are refused at once
+}
+
+func c19sClosedPort() int {
+	l, err := net.Listen("tcp", "127.0.0.1:0")
+	if err != nil {
+		panic(err)
+	}
+	defer l.Close()
+	_, p, _ := net.SplitHostPort(l.Addr().String())
+	port, _ := strconv.Atoi(p)
+	return port
+}
+
+// announceResult plays one announce round trip: the announce tick takes the torrent off the ready queue,
+// the tracker's handout `names` arrives (announceResultEvent); every outgoing handshake it starts is refused
+// (nobody listens) and its failedOutgoingHandshakeEvent is applied. Returns whether the torrent can be
+// announced again afterwards (it is back in the announce queue's ready set).
+func (e *c19sEnv) announceResult(names []string) (ready bool, dialled []string) {
+	h := e.mi.InfoHash()
+	if got, ok := e.st.announceQueue.Next(); !ok || got != h {
+		e.incomplete = true // the torrent was not ready to announce: the scenario does not apply
+		return false, nil
+	}
+	var peers []*core.PeerInfo
+	for _, n := range names {
+		peers = append(peers, core.NewPeerInfo(e.ids[n], "127.0.0.1", e.deadPort, false, false))
+	}
+	// which handshakes will be started (needed only to know which failure events to wait for): the peers the
+	// agent is not connected to and has not blacklisted, while it has free slots (nothing is pending now)
+	activeNow := map[core.PeerID]bool{}
+	for _, c := range e.st.conns.ActiveConns() {
+		activeNow[c.PeerID()] = true
+	}
+	slots := e.maxconn - len(activeNow)
+	var expect []string
+	for _, n := range names {
+		if slots <= 0 {
+			break
+		}
+		if activeNow[e.ids[n]] || e.st.conns.Blacklisted(e.ids[n], h) {
+			continue
+		}
+		dup := false
+		for _, x := range expect {
+			dup = dup || x == n
+		}
+		if dup {
+			continue
+		}
+		expect = append(expect, n)
+		slots--
+	}
+	announceResultEvent{h, peers}.apply(e.st)
+	for _, n := range expect {
+		id := e.ids[n]
+		ev, ok := e.loop.take(func(ev event) bool {
+			x, is := ev.(failedOutgoingHandshakeEvent)
+			return is && x.peerID == id
+		}, c19sDeadline)
+		if !ok {
+			e.incomplete = true
+			return false, nil
+		}
+		ev.apply(e.st)
+		dialled = append(dialled, n)
+	}
+	if got, ok := e.st.announceQueue.Next(); ok && got == h {
+		e.st.announceQueue.Ready(h) // observed through the queue's own API, then put back
+		return true, dialled
+	}
+	return false, dialled
 }
 
 const c19sDeadline = 120 * time.Second
@@ -154,7 +227,8 @@ func c19sNew(cfg []string) (*c19sEnv, error) {
 		return nil, err
 	}
 	ta := agentstorage.NewTorrentArchive(tally.NoopScope, cads, mic)
-	if _, err := ta.CreateTorrent(c19sNS, d); err != nil {
+	localTorrent, err := ta.CreateTorrent(c19sNS, d)
+	if err != nil {
 		cleanup()
 		return nil, err
 	}
@@ -180,6 +254,14 @@ func c19sNew(cfg []string) (*c19sEnv, error) {
 	}
 	e := &c19sEnv{s: s, loop: loop, clk: clk, mi: mi, ids: map[string]core.PeerID{}, names: map[core.PeerID]string{}, cleanup: cleanup}
 	e.st = newState(s, announcequeue.New())
+	// the local download is known to the scheduler from the start (as after newTorrentEvent): it has a
+	// torrent control and sits in the announce queue
+	if _, err := e.st.addTorrent(c19sNS, localTorrent, true); err != nil {
+		cleanup()
+		return nil, err
+	}
+	e.deadPort = c19sClosedPort()
+	e.maxconn = maxconn
 	for k := 1; k <= npeers; k++ {
 		n := fmt.Sprintf("p%d", k)
 		id := core.PeerIDFixture()
@@ -388,6 +470,28 @@ func c19sExec(tr *verifh.T, c verifh.Case) {
 				break
 			}
 			tr.Op(a, append([]string{"res=" + res}, e.obs()...)...)
+		case a[0] == "aresult" && len(a) == 2:
+			var names []string
+			okNames := true
+			for _, n := range verifh.Unlist(a[1]) {
+				if _, ok := e.ids[n]; !ok {
+					okNames = false
+				}
+				names = append(names, n)
+			}
+			if !okNames || len(names) == 0 {
+				continue
+			}
+			var ready bool
+			var dialled []string
+			res := "ok"
+			if p := verifh.Protect(func() { ready, dialled = e.announceResult(names) }); p != "" {
+				res = "panic"
+			}
+			if e.incomplete {
+				break
+			}
+			tr.Op(a, append([]string{"res=" + res, "ready=" + verifh.Bool(ready), "dialled=" + verifh.List(dialled)}, e.obs()...)...)
 		case a[0] == "tick" && len(a) == 2:
 			if ms, err := strconv.Atoi(a[1]); err == nil && ms >= 0 && ms <= 3600000 {
 				e.clk.Add(time.Duration(ms) * time.Millisecond)
@@ -435,9 +539,17 @@ func TestVerif_C19Slots(t *testing.T) {
 			case x < 6:
 				ops = append(ops, []string{"op", "incoming", pn})
 				tr.Count("op_incoming", 1)
-			case x < 9:
+			case x < 8:
 				ops = append(ops, []string{"op", "close", pn})
 				tr.Count("op_close", 1)
+			case x < 9 && r.Chance(1, 2):
+				// an announce response offering 1..npeers peers (often more than there are free slots)
+				var offer []string
+				for _, k := range r.Perm(npeers)[:1+r.Intn(npeers)] {
+					offer = append(offer, fmt.Sprintf("p%d", k+1))
+				}
+				ops = append(ops, []string{"op", "aresult", verifh.List(offer)})
+				tr.Count("op_aresult", 1)
 			default:
 				ops = append(ops, []string{"op", "tick", strconv.Itoa([]int{1, 999, 1001, 5001, 40000}[r.Intn(5)])})
 			}
